@@ -279,6 +279,21 @@ class PowHsm(Device):
         s = hashlib.sha256(b"s" + self.seed + tag + material).digest()
         r = bytes([r[0] & 0x7f | 0x01]) + r[1:]
         s = bytes([s[0] & 0x7f | 0x01]) + s[1:]
+        shape = getattr(self, "sig_shape", None)
+        if shape:
+            # well-formed DER of every size the curve allows: minimal integers are shorter than 32 bytes
+            # once in 256 signatures, and carry a 00 in front when their first bit is set
+            cut = {"short": 31, "shorter": 24, "tiny": 1}
+            for part, which in (("r", 0), ("s", 1)):
+                for name, n in cut.items():
+                    if shape in ("%s-%s" % (name, part), "%s-both" % name):
+                        v = (r, s)[which][-n:]
+                        v = bytes([v[0] & 0x7f | 0x01]) + v[1:]
+                        r, s = (v, s) if which == 0 else (r, v)
+                if shape in ("high-%s" % part, "high-both"):
+                    v = (r, s)[which]
+                    v = b"\x00" + bytes([v[0] | 0x80]) + v[1:]
+                    r, s = (v, s) if which == 0 else (r, v)
         return der(r, s)
 
     # -- sign (auth.c, auth_path.c, auth_tx.c, auth_receipt.c, auth_trie.c) --
